@@ -175,17 +175,17 @@ def run(ctx: Ctx) -> None:
                     cfgs.append(dict(enable=e, disable=d, ignore=i, enable_all=ea, disable_all=da))
     rng = ctx.rng
     seqs = [()] + [(o,) for o in optalpha] + list(itertools.product(optalpha, repeat=2))
+    seqs += list(itertools.product(optalpha, repeat=3))        # an earlier mention, an all-switch and a later selector: the shortest shape where order matters three ways
     if ctx.tier == "thorough":
-        seqs += list(itertools.product(optalpha, repeat=3))
+        seqs += [tuple(rng.choice(optalpha) for _ in range(4)) for _ in range(12000)]
     else:
-        seqs += [tuple(rng.choice(optalpha) for _ in range(3)) for _ in range(400)]
-        seqs += [tuple(rng.choice(optalpha) for _ in range(rng.choice([4, 5]))) for _ in range(150)]
+        seqs += [tuple(rng.choice(optalpha) for _ in range(rng.choice([4, 5]))) for _ in range(300)]
     cases = [(cfgs[0], list(s)) for s in seqs]                      # CLI only
     cases += [(c, []) for c in cfgs]                                # config only
     n_merge = ctx.budget(1500, 60000)
     for _ in range(n_merge):
         cases.append((rng.choice(cfgs), list(rng.choice(seqs[: 1 + len(optalpha) + len(optalpha) ** 2]))))
-    ctx.rule("option sequences over {enable,disable,ignore}x{on-code,off-code,its category,another category} + all-switches: exhaustive to length 2 (3 in thorough) "
+    ctx.rule("option sequences over {enable,disable,ignore}x{on-code,off-code,its category,another category} + all-switches: exhaustive to length 3 "
              "plus sampled longer ones, config-file combinations, and CLI x config merges; non-trivial = at least one selection option; distinct by (config, argv)")
     shards_src = []
     results = []
